@@ -15,9 +15,10 @@ cp seeded_demo_test.go "$d/seeded_demo_test.go.txt" 2>/dev/null
 cp SEED_REPORT.md "$d/SEED_REPORT.md" 2>/dev/null
 suite=FAIL; go test -vet=off -count=1 -skip TestSeededDemo ./... >/dev/null 2>&1 && suite=pass
 demo_with=pass; go test -vet=off -count=1 -run 'TestSeededDemo' . >/dev/null 2>&1 || demo_with=FAIL
-git stash push -q -- $(git diff --name-only -- . ':!seeded_demo_test.go' ':!SEED_REPORT.md')
+# (no git stash: the stash is shared by all worktrees of a repository)
+git apply -R "$d/patch.diff"
 demo_without=FAIL; go test -vet=off -count=1 -run 'TestSeededDemo' . >/dev/null 2>&1 && demo_without=pass
-git stash pop -q
+git apply "$d/patch.diff"
 echo "suite_with_change=$suite demo_with_change=$demo_with demo_without_change=$demo_without"
 ok=no; [ "$suite" = pass ] && [ "$demo_with" = FAIL ] && [ "$demo_without" = pass ] && ok=yes
 cd "$VERIF_DIR"
